@@ -443,5 +443,6 @@ func runC10(ctx *core.Ctx) {
 	runC10Loads(ctx)
 	runC10Glue(ctx)
 	runC10MergeValidate(ctx)
+	runC10Opts(ctx)
 	ctx.Res.Exhaustive = true // the small-scope streams above are enumerated completely (see design/C10.md)
 }
